@@ -348,6 +348,10 @@ func checkStreams(cases []streamCase, shrink bool) {
 	for i, p := range ps {
 		in := replayCase{Section: "stream", Ser: p.c.Ser, RecvLimit: p.c.RecvLimit, Items: p.c.Items, Cut: p.c.Cut, Chunks: p.c.Chunks,
 			Bytes: hx(p.c.stream())}
+		if perKind["stream-spec"] >= 25 {
+			sum.Count("stream:skipped-after-25-violations")
+			continue
+		}
 		guard("stream", in, func() {
 			o, limit := implStream(p.c, p.proto)
 			m := parseModelStream(model[i], p.ser)
